@@ -116,6 +116,7 @@ type config struct {
 	Sizes    []int
 	EarlyEnd int // every n-th channel: the receiver ends early (0 = never)
 	Senders  int // concurrent sender goroutines per channel and direction
+	Lag      bool // the receiving side starts to receive only after the peer's senders returned (or 1.5 s): a backlog builds up
 	Seed     int64
 }
 
@@ -237,9 +238,15 @@ func (s *side) sendAll(ch mpx.Channel, c int, n int, closeWithPayload, doClose b
 }
 
 // recvAll receives until the end (or stops after `limit` messages when limit > 0).
-func (s *side) recvAll(ch mpx.Channel, c int, first []byte, limit int) {
+func (s *side) recvAll(ch mpx.Channel, c int, first []byte, limit int, lag <-chan struct{}) {
 	dname, dbyte := dirOf(map[string]string{"c": "s", "s": "c"}[s.who]) // direction we receive
 	got := 0
+	if s.cfg.Lag && lag != nil {
+		select {
+		case <-lag:
+		case <-time.After(tscale.D(1500 * time.Millisecond)):
+		}
+	}
 	handle := func(b []byte) {
 		cc, dd, seq := check(s.run, b)
 		if cc != c || dd != dbyte {
@@ -299,6 +306,10 @@ func runOnce(run int, cfg config, rec *recorder, cutAfter int64, found func(sig,
 	}
 	var hwg sync.WaitGroup
 	var started, opened atomic.Int32
+	sentC, sentS := make([]chan struct{}, cfg.Chans+1), make([]chan struct{}, cfg.Chans+1)
+	for c := range sentC {
+		sentC[c], sentS[c] = make(chan struct{}), make(chan struct{})
+	}
 	srvSide := &side{run: run, rec: rec, cfg: cfg, who: "s", found: found}
 	handler := func(ctx mpx.Context, ch mpx.Channel) status.Status {
 		hwg.Add(1)
@@ -324,13 +335,14 @@ func runOnce(run int, cfg config, rec *recorder, cutAfter int64, found func(sig,
 		go func() {
 			defer wg.Done()
 			// the server ends the channel if the client does not
+			defer close(sentS[c])
 			srvSide.sendAll(ch, c, p.nS, p.withPayload, !p.clientCloses, lrng)
 		}()
 		limit := 0
 		if p.early && p.clientCloses {
 			limit = 1
 		}
-		srvSide.recvAll(ch, c, first, limit)
+		srvSide.recvAll(ch, c, first, limit, sentC[c])
 		wg.Wait()
 		if limit > 0 || p.clientCloses {
 			// returning frees the channel: a close without payload from the server side
@@ -409,13 +421,14 @@ func runOnce(run int, cfg config, rec *recorder, cutAfter int64, found func(sig,
 						found("panic:user", fmt.Sprintf("sender goroutine of channel %d panicked: %v", c, e))
 					}
 				}()
+				defer close(sentC[c])
 				cliSide.sendAll(ch, c, p.nC, p.withPayload, p.clientCloses, lrng)
 			}()
 			limit := 0
 			if p.early && !p.clientCloses {
 				limit = 1
 			}
-			cliSide.recvAll(ch, c, nil, limit)
+			cliSide.recvAll(ch, c, nil, limit, sentS[c])
 			if *rough && limit > 0 {
 				// end the channel while this side's own Sends may still be blocked on the window or the write queue
 				freeOnce.Do(ch.Free)
@@ -507,6 +520,7 @@ func main() {
 	cut := flag.Bool("cut", false, "C09: cut the connection after a byte count chosen per run")
 	cutStep := flag.Int("cutstep", 7, "C09: offsets k = first, first+step, ...")
 	pooltrace := flag.String("pooltrace", "", "C18: record the pool events of the run into this file")
+	lag := flag.Bool("lag", false, "lagging receivers: large windows and messages, the receiving side waits until the peer has sent everything")
 	stall := flag.Bool("stall", false, "the network stalls once per run for 250 ms after a byte count chosen per run (no fault)")
 	flag.Parse()
 	if *pooltrace != "" {
@@ -541,6 +555,20 @@ func main() {
 			cfg.Conns = 1
 			cfg.WriteQ = 4096
 			curStall = int64(64 + (r-1)*(*cutStep)*8 + rng.Intn(*cutStep*8))
+		}
+		if *lag {
+			// backlogs of tens of MiB on one channel, admitted by the window without the receiver reading
+			cfg.Lag = true
+			cfg.Chans, cfg.Conns, cfg.Senders, cfg.EarlyEnd = 1+rng.Intn(2), 1, 1, 0
+			cfg.WriteQ, cfg.Buf = 1<<20, 32768
+			switch r % 3 {
+			case 0:
+				cfg.Window, cfg.Sizes, cfg.Msgs = 64<<20, []int{1 << 20, 2 << 20}, 24
+			case 1:
+				cfg.Window, cfg.Sizes, cfg.Msgs = 16<<20, []int{3 << 20, 5 << 20}, 3
+			case 2:
+				cfg.Window, cfg.Sizes, cfg.Msgs = 1<<20, []int{hdr, hdr + 3}, 4000
+			}
 		}
 		if *cut {
 			cfg.Chans = 1 + rng.Intn(3)
